@@ -241,6 +241,12 @@ func Generate(r *gen.Rng) *Schema {
 	add("numSet", Atom{List: &List{Elem: named("num"), Rel: "associative"}})
 	add("anySet", Atom{List: &List{Elem: named("any"), Rel: "associative"}})
 	add("atomicList", Atom{List: &List{Elem: named("any"), Rel: "atomic"}})
+	// lists nested in an atomic list (compared as one leaf, element by element, recursively)
+	// a struct holding granular containers (an empty list in it is a node no field set shows)
+	add("holder", Atom{Map: &Map{Fields: []Field{{Name: "v", Type: named("num")}, {Name: "members", Type: named("numSet")},
+		{Name: "tags", Type: named("strMap")}, {Name: "inner", Type: named("point")}}}})
+	add("numRow", Atom{List: &List{Elem: named("num"), Rel: "atomic"}})
+	add("matrix", Atom{List: &List{Elem: named("numRow"), Rel: "atomic"}})
 
 	// keyed list items
 	itemFields := []Field{{Name: "name", Type: named("str")}, {Name: "value", Type: scalarRef()}}
@@ -282,7 +288,7 @@ func Generate(r *gen.Rng) *Schema {
 	pool := []Ref{
 		named("num"), named("str"), named("any"), scalarRef(),
 		named("point"), named("atomicPoint"), named("strMap"), named("atomicMap"),
-		named("numSet"), named("anySet"), named("atomicList"),
+		named("numSet"), named("anySet"), named("atomicList"), named("matrix"), named("holder"), named("holder"),
 		named("itemList"), named("item2List"), named("itemDList"),
 		named("tree"), named("__untyped_deduced_"), named("openStruct"),
 		// inlined equivalents
